@@ -198,6 +198,13 @@ class Table(Vector):
 			initial = [Vector(values, name=col_name) for col_name, values in initial.items()]
 		
 		self._length = len(initial[0]) if initial else 0
+
+		# A table is rectangular: reject columns of unequal length instead of storing them
+		for vec in initial or ():
+			if len(vec) != self._length:
+				raise SerifValueError(
+					f"All columns of a Table must have the same length: got {len(vec)} and {self._length}"
+				)
 		
 		# Deep copy columns to enforce value semantics
 		# Tables receive snapshots of vectors, preventing aliasing
